@@ -122,6 +122,10 @@ def oracle(ctx, search):
     for line in out.split("\n"):
         if line.startswith("ORACLE "):
             fails.append(Fail(key=line[7:60], what=line[7:]))
+        if line.startswith("CONFIGURED "):
+            ctx.extra["conversions_through_configured_converters_interleaved"] = int(line.split()[1])
+    if "conversions_through_configured_converters_interleaved" not in ctx.extra:
+        fails.append(Fail(key="configured-converters-not-exercised", what="readConfig did not install the converters for the four formats"))
     ctx.extra["oracle_conversions"] = 72684 * (1 + 4 * 2 * 2)
     ctx.extra["exhaustive"] = True
     return fails
